@@ -221,7 +221,7 @@ var props = map[string]*propCfg{
 	},
 	"C14": {
 		ID: "C14", Level: "model_checking", Exhaustive: true,
-		Rule:        "TLC explores every interleaving of the main goroutine (one step per row) with the start / finish steps of every ASYNC, SPINASYNC and SPIN call for seven configurations (col+async on 3 rows; async+spinasync+sync, once+async+spin, async+col+async, a NULL-returning ONCE + async on 2 rows; spinasync+col and col+async inside a nested query whose wait group is chained to the outer one - replayed as a derived table, as a CTE body and as a derived table on the left and on the right side of a join; async+failing call+spinasync on 3 rows and spinasync+async+failing call on 2 rows, where an unqualified call fails the query at row 2; async+spinasync+once on 2 rows with an empty window, replayed as LIMIT 0 and as an OFFSET past the last row), checking at Return that every ASYNC / SPINASYNC call was invoked exactly once and completed, that values sit in their columns, that SPIN / SPINASYNC add no column and that ONCE ran once - and termination under fairness; after a failing row that every call the query got to has completed and none ran twice; four deviation configurations (wait group incremented inside the goroutine; outer query not chained to the nested wait group; a failed Exec returning without waiting; an Exec with an empty window returning without waiting) must violate AllCompleted. Every terminal behaviour is exported as a schedule and forced onto the real engine with gates inside the harness's own functions (the main goroutine is gated by an unqualified mark(a) placed first in the select list): Exec returning while a gated ASYNC / SPINASYNC call is still held is a violation, as are wrong invocation counts, rows or columns. Leg T: free-running goroutines with zero / skewed / random latencies on 2-6 rows, events recorded with a sequence number under one lock and validated against AsyncTrace (a 'ret' event is only enabled once the wait group has drained). Immediate functions under ASYNC / SPIN / SPINASYNC must be rejected: Registry.tla enumerates every history of <= 4 (thorough 6) registrations of two names as ordinary / immediate functions (ImmediateRejects, OrdinaryRuns, LatestWins; toggling on re-registration must violate ImmediateRejects) and each history is replayed on the process-wide registry, asking the engine after every registration (rejected without running the function / accepted with the unqualified call's value); the built-in immediate functions are driven directly. Non-trivial: every schedule and history; distinct = distinct schedules.",
+		Rule:        "TLC explores every interleaving of the main goroutine (one step per row) with the start / finish steps of every ASYNC, SPINASYNC and SPIN call for seven configurations (col+async on 3 rows; async+spinasync+sync, once+async+spin, async+col+async, a NULL-returning ONCE + async on 2 rows; spinasync+col and col+async inside a nested query whose wait group is chained to the outer one - replayed as a derived table, as a CTE body, as a derived table on the left and on the right side of a join, and as the left side of a join below the top level whose right side has ASYNC calls of its own; the top-level configurations also over a two-dimensional table; async+failing call+spinasync on 3 rows and spinasync+async+failing call on 2 rows, where an unqualified call fails the query at row 2; async+spinasync+once on 2 rows with an empty window, replayed as LIMIT 0 and as an OFFSET past the last row), checking at Return that every ASYNC / SPINASYNC call was invoked exactly once and completed, that values sit in their columns, that SPIN / SPINASYNC add no column and that ONCE ran once - and termination under fairness; after a failing row that every call the query got to has completed and none ran twice; four deviation configurations (wait group incremented inside the goroutine; outer query not chained to the nested wait group; a failed Exec returning without waiting; an Exec with an empty window returning without waiting) must violate AllCompleted. Every terminal behaviour is exported as a schedule and forced onto the real engine with gates inside the harness's own functions (the main goroutine is gated by an unqualified mark(a) placed first in the select list): Exec returning while a gated ASYNC / SPINASYNC call is still held is a violation, as are wrong invocation counts, rows or columns. Leg T: free-running goroutines with zero / skewed / random latencies on 2-6 rows, events recorded with a sequence number under one lock and validated against AsyncTrace (a 'ret' event is only enabled once the wait group has drained). Immediate functions under ASYNC / SPIN / SPINASYNC must be rejected: Registry.tla enumerates every history of <= 4 (thorough 6) registrations of two names as ordinary / immediate functions (ImmediateRejects, OrdinaryRuns, LatestWins; toggling on re-registration must violate ImmediateRejects) and each history is replayed on the process-wide registry, asking the engine after every registration (rejected without running the function / accepted with the unqualified call's value); the built-in immediate functions are driven directly. A driver executes a Query whose first Exec fails (a function failing on its first call) a second time: every ASYNC value of the second run in place. Non-trivial: every schedule and history; distinct = distinct schedules.",
 		Assumptions: append([]string{"gates synchronise the goroutines, so forced schedules expose logical outcomes only; memory races are the race detector's job (C13)"}, baseAssumptions...),
 		CaseTimeout: 60 * time.Second,
 		Quick: []legCfg{
@@ -239,6 +239,7 @@ var props = map[string]*propCfg{
 			{Kind: "mc", Name: "registry", Module: "Registry", Cfg: "Registry_quick.cfg", Timeout: 5 * time.Minute, TLCWorkers: 4, Workers: 4},
 			{Kind: "mc", Name: "registry-dev", Module: "Registry", Cfg: "Registry_dev.cfg", Timeout: 5 * time.Minute, TLCWorkers: 1, NoExport: true, Expect: "ImmediateRejects"},
 			{Kind: "exec", Name: "immediate", Mode: "immediate", Timeout: 2 * time.Minute},
+			{Kind: "exec", Name: "retry", Mode: "retry", Timeout: 2 * time.Minute},
 			{Kind: "trace", Name: "latency", Module: "AsyncTrace", TraceN: 120, TraceFiles: 7, Timeout: 10 * time.Minute, CallEv: "begin"},
 		},
 		Thorough: []legCfg{
@@ -259,6 +260,7 @@ var props = map[string]*propCfg{
 			{Kind: "mc", Name: "registry", Module: "Registry", Cfg: "Registry_thorough.cfg", Timeout: 10 * time.Minute, TLCWorkers: 4, Workers: 4},
 			{Kind: "mc", Name: "registry-dev", Module: "Registry", Cfg: "Registry_dev.cfg", Timeout: 5 * time.Minute, TLCWorkers: 1, NoExport: true, Expect: "ImmediateRejects"},
 			{Kind: "exec", Name: "immediate", Mode: "immediate", Timeout: 2 * time.Minute},
+			{Kind: "exec", Name: "retry", Mode: "retry", Timeout: 2 * time.Minute},
 			{Kind: "trace", Name: "latency", Module: "AsyncTrace", TraceN: 600, TraceFiles: 15, Timeout: 20 * time.Minute, CallEv: "begin"},
 		},
 	},
